@@ -3,6 +3,7 @@ import BU.Model.Heap
 import BU.Model.Digest
 import BU.Model.Order
 import BU.Proofs.OrderLemmas
+import BU.Proofs.HeapLemmas
 import BU.Properties.C03
 import BU.Properties.C04
 import BU.Properties.C05
@@ -24,38 +25,63 @@ def Extends (h h' : H) : Prop := ∃ ext, h' = h ++ ext
 same transaction value -/
 theorem copyTx_fresh (h : H) (r : Ref) (h' : H) (c : Ref) (hc : copyTx h r = .ok (h', c)) :
     Extends h h' ∧ (∀ x ∈ reachTx h' c, h.length ≤ x) ∧ (∀ t, viewTx h r = some t → viewTx h' c = some t) := by
-  sorry
+  obtain ⟨ext, rfl, h1, h2, _⟩ := HeapLemmas.copyTx_spec hc
+  exact ⟨⟨ext, rfl⟩, h1, h2⟩
 
 theorem copyTxIn_fresh (h : H) (r : Ref) (h' : H) (c : Ref) (hc : copyTxIn h r = .ok (h', c)) :
     Extends h h' ∧ (∀ x ∈ reachTxIn h' c, h.length ≤ x) ∧ (∀ t, viewTxIn h r = some t → viewTxIn h' c = some t) := by
-  sorry
+  obtain ⟨ext, rfl, _, _, ⟨v, hv, hv'⟩, hr⟩ := HeapLemmas.copyTxIn_spec hc
+  refine ⟨⟨ext, rfl⟩, hr, ?_⟩
+  intro t ht
+  rw [hv] at ht; rw [← ht]; exact hv'
 
 theorem copyTxOut_fresh (h : H) (r : Ref) (h' : H) (c : Ref) (hc : copyTxOut h r = .ok (h', c)) :
     Extends h h' ∧ (∀ x ∈ reachTxOut h' c, h.length ≤ x) ∧ (∀ t, viewTxOut h r = some t → viewTxOut h' c = some t) := by
-  sorry
+  obtain ⟨ext, rfl, _, _, ⟨v, hv, hv'⟩, hr⟩ := HeapLemmas.copyTxOut_spec hc
+  refine ⟨⟨ext, rfl⟩, hr, ?_⟩
+  intro t ht
+  rw [hv] at ht; rw [← ht]; exact hv'
 
 theorem copyWit_fresh (h : H) (r : Ref) (h' : H) (c : Ref) (hc : copyWit h r = .ok (h', c)) :
     Extends h h' ∧ (∀ x ∈ reachWit h' c, h.length ≤ x) ∧ (∀ t, viewWit h r = some t → viewWit h' c = some t) := by
-  sorry
+  obtain ⟨ext, rfl, _, _, ⟨v, hv, hv'⟩, hr⟩ := HeapLemmas.copyWit_spec hc
+  refine ⟨⟨ext, rfl⟩, hr, ?_⟩
+  intro t ht
+  rw [hv] at ht; rw [← ht]; exact hv'
 
 theorem copyScript_fresh (h : H) (r : Ref) (h' : H) (c : Ref) (hc : copyScript h r = .ok (h', c)) :
     Extends h h' ∧ (∀ x ∈ reachScript h' c, h.length ≤ x) ∧ (∀ t, viewScript h r = some t → viewScript h' c = some t) := by
-  sorry
+  obtain ⟨ext, rfl, _, _, ⟨v, hv, hv'⟩, hr⟩ := HeapLemmas.copyScript_spec hc
+  refine ⟨⟨ext, rfl⟩, hr, ?_⟩
+  intro t ht
+  rw [hv] at ht; rw [← ht]; exact hv'
 
 /-- objects constructed independently share nothing: an input built with the defaulted `script_sig` gets a
 script (and list) of its own -/
 theorem newTxIn_default_fresh (h : H) (txid : Bytes) (index : Int) (sequence : Bytes) :
     ∀ x ∈ reachTxIn (newTxIn h txid index none sequence).1 (newTxIn h txid index none sequence).2, h.length ≤ x := by
-  sorry
+  intro x hx
+  simp only [newTxIn, HeapLemmas.newScript_eq, alloc] at hx
+  have g : (h ++ [Obj.toklist [], Obj.script h.length] ++ [Obj.txin txid index (h.length + 1) sequence])[
+      (h ++ [Obj.toklist [], Obj.script h.length]).length]? = some (.txin txid index (h.length + 1) sequence) := by
+    simp
+  unfold reachTxIn at hx
+  rw [g] at hx
+  simp only [List.mem_cons] at hx
+  rcases hx with rfl | hx
+  · simp
+  · rw [HeapLemmas.reachScript_ext _ (HeapLemmas.newScript_view h []), HeapLemmas.newScript_reach] at hx
+    simp only [List.mem_cons, List.not_mem_nil, or_false] at hx
+    rcases hx with rfl | rfl <;> omega
 
 /-- **frame**: a write (attribute rebinding or in-place list mutation) to an object that is not reachable from
 a transaction does not change the value that transaction denotes -/
 theorem frame (h : H) (r w : Ref) (o : Obj) (hw : w ∉ reachTx h r) : viewTx (write h w o) r = viewTx h r := by
-  sorry
+  exact HeapLemmas.viewTx_frame o hw
 
 /-- in a heap built by allocation (no forward references) everything reachable from an old object is old -/
 theorem reach_old (h : H) (hcl : closed h) (r : Ref) (hr : r < h.length) : ∀ x ∈ reachTx h r, x < h.length := by
-  sorry
+  exact HeapLemmas.reachTx_old hcl hr
 
 /-- **mutating a copy through its public attributes never changes the original** (and vice versa), for any
 object reachable from either and any new content -/
@@ -63,7 +89,18 @@ theorem copy_isolated (h : H) (hcl : closed h) (r : Ref) (hr : r < h.length) (h'
     (hc : copyTx h r = .ok (h', c)) :
     (∀ w ∈ reachTx h' c, ∀ o, viewTx (write h' w o) r = viewTx h r) ∧
     (∀ w ∈ reachTx h' r, ∀ o, viewTx (write h' w o) c = viewTx h' c) := by
-  sorry
+  obtain ⟨ext, rfl, hfresh, _, _⟩ := HeapLemmas.copyTx_spec hc
+  constructor
+  · intro w hw o
+    rw [HeapLemmas.write_ext ext o (hfresh w hw)]
+    exact HeapLemmas.viewTx_ext_closed hcl hr _
+  · intro w hw o
+    apply HeapLemmas.viewTx_frame
+    intro hwc
+    rw [HeapLemmas.reachTx_ext_closed hcl hr] at hw
+    have h1 := HeapLemmas.reachTx_old hcl hr w hw
+    have h2 := hfresh w hwc
+    exact absurd h1 (Nat.not_lt.mpr h2)
 
 /-! ## digests never change the transaction -/
 
